@@ -1447,6 +1447,14 @@ func (r *RigS) finalOracles() {
 					}
 				}
 			}
+			if cls == "" && ok {
+				// ... also when the failure pause of the neighbour could not be persisted (it is Paused in memory only)
+				for id2, m2 := range sn.Tasks {
+					if id2 != owner && tasks[id2] != nil && ukeyOf(tasks[id2]) == ukeyOf(tasks[owner]) && m2.State == "Paused" && m2.Reason != "" && !strings.HasPrefix(m2.Reason, "manually pause") {
+						cls = "_bystander_of_failed_task"
+					}
+				}
+			}
 			if r.consequenceOfTimeSkip(key, lost) {
 				cls = "_after_restamped_time_skip"
 			}
@@ -1464,6 +1472,17 @@ func (r *RigS) finalOracles() {
 }
 
 // ------------------------------------------------------------------ C04 on the whole server
+
+// tasksOn: the model's tasks on one downstream.
+func (r *RigS) tasksOn(tgt int) []string {
+	var out []string
+	for _, id := range SortedKeys(r.st.Tasks) {
+		if t := r.st.Tasks[id]; t.Spec != nil && t.Spec.tgt() == tgt {
+			out = append(out, id)
+		}
+	}
+	return out
+}
 
 // taskSelecting: the task of the model (accepted creates) on the given downstream whose specification selects the collection.
 func (r *RigS) taskSelecting(tgt int, c *SColl) string {
@@ -1571,8 +1590,13 @@ func (r *RigS) checkDrops(tasks map[string]*meta.TaskInfo, sn server.VerifSnapsh
 			for sh := 0; sh < c.Shard; sh++ {
 				found := false
 				from, streamed := r.st.Domain[domainKey(owner, tgt, c.ID, sh)]
+				// (the collection must have been dropped while the task was replicating it - or was down -: the source catalog
+				// began to show it as dropping after the task's stream of this shard had first been registered. What a task
+				// does with a collection that was already dropped when it first read it is not judged here.)
+				reg, haveReg := r.st.FirstReg[domainKey(owner, tgt, c.ID, sh)]
+				catAt, haveCat := r.st.CatDropAt[fmt.Sprint(c.ID)]
 				for i, e := range r.mq.Logs[srcPCh(sh)] {
-					if e.Kind == "dropc" && e.Coll == c.ID && streamed && i >= from {
+					if e.Kind == "dropc" && e.Coll == c.ID && streamed && i >= from && haveReg && haveCat && before(reg, catAt) {
 						found = true
 					}
 				}
@@ -1582,8 +1606,11 @@ func (r *RigS) checkDrops(tasks map[string]*meta.TaskInfo, sn server.VerifSnapsh
 				continue
 			}
 			cls := r.classOf(tasks, owner)
-			if cls == "" && r.bgPaused[tgt] {
+			if cls == "" && (r.bgPaused[tgt] || r.bgTouched[tgt]) {
 				cls = "_bystander_of_failed_task"
+			}
+			if cls == "" {
+				cls = r.classOf(tasks, r.tasksOn(tgt)...) // the event loop is shared: what happened to a neighbour on this downstream
 			}
 			for sh := 0; sh < c.Shard; sh++ {
 				if r.st.DropSkipped[fmt.Sprintf("%d|%d|%d", tgt, c.ID, sh)] {
@@ -1683,8 +1710,11 @@ func (r *RigS) checkPartitionDrops(tasks map[string]*meta.TaskInfo, sn server.Ve
 					continue
 				}
 				cls := r.classOf(tasks, owner)
-				if cls == "" && r.bgPaused[tgt] {
+				if cls == "" && (r.bgPaused[tgt] || r.bgTouched[tgt]) {
 					cls = "_bystander_of_failed_task"
+				}
+				if cls == "" {
+					cls = r.classOf(tasks, r.tasksOn(tgt)...)
 				}
 				for sh := 0; sh < c.Shard; sh++ {
 					if r.st.DropSkipped[fmt.Sprintf("%d|%d|%d|p%d", tgt, c.ID, sh, pid)] {
